@@ -351,3 +351,4 @@ def run(ctx):
     _codec.rule_std_width(ctx, pyfront.PyIndex(ctx.root), "R-C02-STDWIDTH")
     _codec.rule_offset_sets(ctx, cd, "des", "R-C02-OFFSET-SET")
     _codec.rule_padding(ctx, cd, "des", "R-C02-PADDING")
+    _codec.rule_pad_body(ctx, cd, "des", "R-C02-PAD-BODY")
